@@ -47,7 +47,7 @@ import numpy as np
 from harness import tabutil as tu
 from harness import wireutil as wu
 from harness import common
-from harness.common import Driver, Result, err_class
+from harness.common import Driver, Result, coverage_floor, err_class, impl_guard
 
 LEVEL = "proof"
 TRUSTED_BASE = [
@@ -175,7 +175,11 @@ def make_scripted(base_cls):
             self.got_list = []
             self._seen = {}
 
-        def compile_one_gate(self, state, op, n_quantum, q_index, classical_registers):
+        def compile_one_gate(self, *args, **kwargs):
+            # arguments are forwarded exactly as given (a signature-extending refactor of CompilerBase must not raise inside this subclass);
+            # the operation is the 2nd, the classical record the 5th positional argument, or the keywords `op` / `classical_registers`
+            op = kwargs.get("op", args[1] if len(args) > 1 else None)
+            classical_registers = kwargs.get("classical_registers", args[4] if len(args) > 4 else None)
             name = type(op).__name__
             if name in MEASURING:
                 sig = (name, tuple(op.q_registers), tuple(op.q_registers_type), tuple(op.c_registers))
@@ -183,11 +187,11 @@ def make_scripted(base_cls):
                 self._seen[sig] = k + 1
                 key = sig + (k,)
                 self.measurement_determinism = self.want.get(key, self.default)
-                super().compile_one_gate(state, op, n_quantum, q_index, classical_registers)
+                super().compile_one_gate(*args, **kwargs)
                 self.got[key] = int(classical_registers[op.c_registers[0]])
                 self.got_list.append(self.got[key])
             else:
-                super().compile_one_gate(state, op, n_quantum, q_index, classical_registers)
+                super().compile_one_gate(*args, **kwargs)
 
     return Scripted
 
@@ -313,22 +317,32 @@ def check_rewrites(ctx, res, drv, circ, tag, with_dm):
             res.violation(f"rewrite:{name}:raised", "the rewrite returns a circuit compiling to the same state", input=inp,
                           impl=f"{type(e).__name__}: {e}"[:300])
             continue
-        after = wu.snapshot(new)
         if before["nodes"]:
             res.nontrivial(wu.shape(before), name)
         # the original must be untouched by a rewrite of its copy
-        if wu.snapshot(circ) != before or circ.to_openqasm() != qasm_before:
+        try:
+            now_orig, qasm_now = wu.snapshot(circ), circ.to_openqasm()
+        except Exception as e:  # noqa: BLE001 — the original could be read before the rewrite: it was changed
+            now_orig, qasm_now = None, f"unreadable after the rewrite: {type(e).__name__}: {e}"[:200]
+        if now_orig != before or qasm_now != qasm_before:
             res.violation(f"alias:{name}:original-changed", "a rewrite of a copy / a derived circuit leaves the original unchanged", input=inp,
-                          impl=wu.encode(wu.snapshot(circ)))
+                          impl=wu.encode(now_orig) if now_orig is not None else qasm_now)
             continue
-        # direct oracle: same state, branch by branch
+        # direct oracle: same state, branch by branch.  Structure first: the wire walk of snapshot() raises on a rewrite that breaks a
+        # wire (it used to run before structure_problems and ended the run as a harness crash instead of this violation)
         probs = wu.structure_problems(new)
         if probs:
             res.violation(f"rewrite:{name}:invalid-circuit", "the rewritten circuit is a valid circuit", input=inp, impl=probs[:4])
             continue
-        diff = sem_equal(ctx, circ, new, "stab")
-        if diff is None and with_dm:
-            diff = sem_equal(ctx, circ, new, "dm", max_exh=2)
+        after = wu.snapshot(new)
+        try:
+            diff = sem_equal(ctx, circ, new, "stab")
+            if diff is None and with_dm:
+                diff = sem_equal(ctx, circ, new, "dm", max_exh=2)
+        except Exception as e:  # noqa: BLE001 — the original compiles (fingerprints, other streams); a rewritten circuit that does not is not "the same state"
+            res.violation(f"rewrite:{name}:compile-raises:{err_class(e)}", "the rewritten circuit compiles to the same state as the original", input=inp,
+                          impl=f"{type(e).__name__}: {e}"[:300], rewritten=wu.encode(after))
+            continue
         if diff is not None:
             res.violation(f"rewrite:{name}:state-changed", "the rewrite does not change the state the circuit compiles to", input=inp,
                           impl=diff, rewritten=wu.encode(after))
@@ -366,7 +380,8 @@ class Reordered:
     def __getattr__(self, name):
         return getattr(self._c, name)
 
-    def sequence(self, unwrapped=False):
+    def sequence(self, unwrapped=False, *args, **kwargs):
+        # extra arguments of a refactored caller are accepted (they cannot change the order this view stands for)
         op_list = [self._c.dag.nodes[n]["op"] for n in self._order]
         if not unwrapped:
             return op_list
@@ -674,6 +689,26 @@ def fp_noise_map(m):
     return {"map": tuple(sorted((k, tuple(sorted((g, noise_desc(v)) for g, v in d.items()))) for k, d in m.items()))}
 
 
+# (call, exception class, substring of the message) of raises that are justified on the unchanged repository: documented not-implemented
+# paths.  Every other exception of a library call inside an interleaving is reported (it used to be counted in `errors` only).
+ALLOWED_RAISES = [
+    # DensityMatrixCompiler._apply_additional_noise: additive noise on MeasurementCNOTandReset / classically controlled gates is not implemented
+    (("compile", "compile_noisy"), ValueError, "Noise model not implemented for operation type"),
+]
+
+
+def has_noise(circ):
+    """does some operation of the circuit carry a noise model other than NoNoise?"""
+    import graphiq.noise.noise_models as nm
+
+    def noisy(x):
+        if isinstance(x, (list, tuple)):
+            return any(noisy(y) for y in x)
+        return x is not None and not isinstance(x, nm.NoNoise)
+
+    return any(noisy(getattr(circ.dag.nodes[n]["op"], "noise", None)) for n in circ.dag.nodes)
+
+
 def alias_world(ctx, res, tag_seed):
     """one random interleaving of library calls on shared objects"""
     from graphiq.backends.density_matrix.compiler import DensityMatrixCompiler
@@ -730,8 +765,17 @@ def alias_world(ctx, res, tag_seed):
             backend = "stab"
         else:
             backend = rng.choice(["stab", "dm"]) if subj_small else "stab"
+        if call == "mc" and has_noise(subject):
+            # MonteCarloNoise takes the noise-free circuit (its `ideal_state` is the compiled input; the only caller in the library,
+            # AlternateTargetSolver, passes the solver's circuit; the noise of every sample is drawn from the McNoiseMap and *replaces*
+            # op.noise): a circuit that already carries additive noise is outside its domain (with `_monte_carlo` the compiler holds a pure
+            # state, DepolarizingNoise.apply cannot store its mixture: TypeError).  Not generated; counted.
+            res.count("errors", "mc:noisy-subject-outside-domain(replaced by the noise-free original)")
+            subject = circ
         history.append(call)
         detail = ""
+        calls = res.extra.setdefault("alias_calls", {})
+        calls.setdefault(call, [0, 0])[0] += 1
         try:
             with warnings.catch_warnings():
                 warnings.simplefilter("ignore")
@@ -788,12 +832,28 @@ def alias_world(ctx, res, tag_seed):
                     if branching_gates(subject, nmap) > 3:
                         backend = "dm" if subj_small else None
                     if backend is None:
+                        res.count("errors", "compile_noisy:skipped(more than 3 branching gates on more than 4 qubits)")
                         continue
                     comp = compilers[backend]
                     comp.measurement_determinism = 1
                     comp.noise_simulation = True
-                    comp.compile(noisy)
-                    comp.noise_simulation = False
+                    # the compiled circuit itself is an input too ("compiling never changes the circuit passed in"): the noisy circuit is a
+                    # fresh object that no fingerprint of the world covers, so its noise assignment is compared around the compile here
+                    # (this is what the dropped `mc`-on-a-noisy-circuit calls used to reach by accident: seeded C13-m1)
+                    noise_before = tuple((n, noise_desc(noisy.dag.nodes[n]["op"].noise)) for n in sorted(noisy.dag.nodes, key=str) if not isinstance(n, str))
+                    try:
+                        comp.compile(noisy)
+                    finally:
+                        comp.noise_simulation = False
+                        noise_after = tuple((n, noise_desc(noisy.dag.nodes[n]["op"].noise)) for n in sorted(noisy.dag.nodes, key=str) if not isinstance(n, str))
+                        if noise_after != noise_before:
+                            res.violation("alias:compile_noisy:compiled-circuit-changed:noise",
+                                          "a library call never changes the behaviour of the circuit, target or noise-free original passed in",
+                                          input={"kind": kind, "circuit": wu.encode(wu.snapshot(circ)), "history": list(history), "call": call, "backend": backend,
+                                                 "seed": tag_seed},
+                                          impl=str([x for x, y in zip(noise_after, noise_before) if x != y])[:300],
+                                          model=str([y for x, y in zip(noise_after, noise_before) if x != y])[:300])
+                            return
                 elif call == "mc":
                     mcm = McNoiseMap()
                     mcm.add_gate_noise("e", "Hadamard", [(nm.PauliError("X"), 0.3), (nm.NoNoise(), 0.7)])
@@ -821,9 +881,15 @@ def alias_world(ctx, res, tag_seed):
                     subject.sequence(unwrapped=True)
                     subject.validate()
         except Exception as e:  # noqa: BLE001
-            # an exception is not what this property is about; the inputs must still be intact
+            # an exception is not what this property is about; the inputs must still be intact — but it is not silent either: unless it
+            # is a documented not-implemented path (ALLOWED_RAISES) the library raised on an input of its domain
             res.count("errors", f"{call}:{type(e).__name__}")
             detail += f" raised {type(e).__name__}"
+            calls[call][1] += 1
+            if not any(call in cs and isinstance(e, cls) and sub in str(e) for cs, cls, sub in ALLOWED_RAISES):
+                res.exact_break(f"alias:{call}:raises:{err_class(e)}",
+                                input={"kind": kind, "circuit": wu.encode(wu.snapshot(circ)), "history": list(history), "call": call, "seed": tag_seed},
+                                impl=f"{type(e).__name__}: {e}"[:300] + f" [at {common.where_raised(e)}]", model="the library call returns (no documented error path applies)")
         res.evaluations += 1
         res.branch([f"alias:{call}"])
         now = fps()
@@ -860,37 +926,59 @@ def run(ctx):
         budget_a = 70 if ctx.quick else 600
         cop_cases = []
         n_cop = 40 if ctx.quick else 300
+        # every case runs under common.impl_guard (+ wu.OutOfModel = the implementation produced an operation outside the wire model): the
+        # generators (add / insert_at / find_incompatible_edges, TimeReversedSolver), snapshot(), to_openqasm(), compile of the fingerprints
+        # call graphiq outside the `try` blocks; an exception there is reported (exit 1) instead of ending run() as exit 2
+        done_a = 0
         for k in range(n_a):
-            mz = ctx.rng.random() < 0.12
-            tag = "random+MZ" if mz else "random"
-            if not mz and ctx.rng.random() < 0.15:
-                circ = solver_circuit(ctx.rng)
-                tag = "solver"
-            else:
-                circ = gen_circuit(ctx.rng, allow_mz=mz)
-            res.count("sizes", f"ops<={5 * ((len(wu.snapshot(circ)['nodes']) + 4) // 5)}")
-            check_rewrites(ctx, res, drv, circ, tag, with_dm=circ.n_quantum <= 4 and ctx.rng.random() < 0.4)
-            if ctx.rng.random() < 0.5:
-                check_orders(ctx, res, drv, circ, tag, with_dm=circ.n_quantum <= 4 and ctx.rng.random() < 0.5)
-            if len(cop_cases) < n_cop and len(wu.snapshot(circ)["nodes"]) >= 1:
-                cop_cases.append((circ, None, tag))
-                cop_cases.append((circ, random_linear_extension(ctx.rng, circ.dag), tag + "+order"))
+            with impl_guard(res, "rewrites", promise=True, input={"case": k}, also=(wu.OutOfModel,)):
+                mz = ctx.rng.random() < 0.12
+                tag = "random+MZ" if mz else "random"
+                if not mz and ctx.rng.random() < 0.15:
+                    circ = solver_circuit(ctx.rng)
+                    tag = "solver"
+                else:
+                    circ = gen_circuit(ctx.rng, allow_mz=mz)
+                res.count("sizes", f"ops<={5 * ((len(wu.snapshot(circ)['nodes']) + 4) // 5)}")
+                check_rewrites(ctx, res, drv, circ, tag, with_dm=circ.n_quantum <= 4 and ctx.rng.random() < 0.4)
+                if ctx.rng.random() < 0.5:
+                    check_orders(ctx, res, drv, circ, tag, with_dm=circ.n_quantum <= 4 and ctx.rng.random() < 0.5)
+                if len(cop_cases) < n_cop and len(wu.snapshot(circ)["nodes"]) >= 1:
+                    cop_cases.append((circ, None, tag))
+                    cop_cases.append((circ, random_linear_extension(ctx.rng, circ.dag), tag + "+order"))
+                done_a += 1
             if time.time() - t0 > budget_a or len(res.violations) > 20:
                 break
-        check_model_compile(ctx, res, drv, cop_cases)
+        # the loop above stops on a wall-clock budget: how far it got is evidence (a much slower implementation executes fewer cases)
+        res.extra.setdefault("stream_coverage", {})["rewrites (time budget %ds)" % budget_a] = f"{done_a}/{n_a}"
+        with impl_guard(res, "model-compile", promise=True, also=(wu.OutOfModel,)):
+            check_model_compile(ctx, res, drv, cop_cases)
         # exhaustive: all circuits of two operations over a small alphabet on (1 emitter, 1 photon)
-        exhaustive_small(ctx, res, drv)
+        with impl_guard(res, "rewrites:exhaustive", promise=True, also=(wu.OutOfModel,)):
+            exhaustive_small(ctx, res, drv)
         n_b = 60 if ctx.quick else 300
         budget_b = 75 if ctx.quick else 700
         t1 = time.time()
+        tried_b = out_of_model = 0
         for k in range(n_b):
             seed = ctx.rng.getrandbits(30)
+            tried_b += 1
             try:
-                alias_world(ctx, res, seed)
+                with impl_guard(res, "alias", input={"seed": seed}):
+                    alias_world(ctx, res, seed)
             except wu.OutOfModel:
+                # a generated world left the wire model (parameterised gate / foreign label): skipped — counted, and most worlds must not be
+                out_of_model += 1
+                res.count("errors", "alias:world-outside-wire-model")
                 continue
             if time.time() - t1 > budget_b or len(res.violations) > 20:
                 break
+        res.extra["stream_coverage"]["alias worlds (time budget %ds)" % budget_b] = f"{tried_b}/{n_b}"
+        coverage_floor(res, "alias worlds inside the wire model", tried_b - out_of_model, tried_b, what="interleavings")
+        for call, (tried, raised) in sorted(res.extra.get("alias_calls", {}).items()):
+            if tried >= 6 and raised > 0.5 * tried:
+                res.exact_break(f"coverage collapsed: alias:{call}", input={"call": call}, impl=f"{raised} of {tried} calls raised (only their inputs' integrity was checked)",
+                                model="most library calls of an interleaving return")
     finally:
         res.extra["driver_lines"] = drv.n_lines
         drv.close()
